@@ -726,6 +726,21 @@ def const_token_texts(src):
     return out
 
 
+def r6_views_are_fresh(rep, src):
+    """frame rule for the read path of a list view: paragraph → wrapper.__getitem__ → _interpret_value → interpret → token list.
+    Nothing on it may store into state that outlives the call: a remembered view would hand out an object carrying edits
+    that were never committed (abandoned with-block, scratch list), which the next open/close writes into the document"""
+    from . import common
+    PMn = '_deb822_repro.parsing'
+    sites = [PMn + ':AutoResolvingMixin.__getitem__', PMn + ':Deb822InterpretingParagraphWrapper._interpret_value',
+             PMn + ':GenericContentBasedInterpretation.interpret', PMn + ':GenericContentBasedInterpretation._parse_kvpair',
+             PMn + ':GenericContentBasedInterpretation._parse_str', PMn + ':ListInterpretation._high_level_interpretation',
+             PMn + ':Deb822KeyValuePairElement.interpret_as']
+    common.check_no_hidden_state(rep, src, 'C11.R6', sites,
+                                 'the interpreted value of a field is remembered across look-ups: a later view of the same field is the same object, including '
+                                 'edits that were abandoned, instead of a fresh list built from the current field text')
+
+
 def check(src, rep, tier):
     rep.explanation = ('C11: (R1) call-graph effect analysis in Deb822ParsedTokenList: methods that (transitively) mutate the token list must '
                        '(transitively) store _changed = True, read accessors must do neither, _update_field is called only from __exit__ under '
@@ -742,7 +757,9 @@ def check(src, rep, tier):
     rep.need('C11.R3', 10)
     rep.need('C11.R4', 5)
     rep.need('C11.R5', 60)
+    rep.need('C11.R6', 7)
     rep.guard('C11.R1', r1_changed_flag, src)
     rep.guard('C11.R5', r5_edits, src, tier)
     rep.guard('C11.R3', r2_r3_tokenizers, src)
     rep.guard('C11.R4', r4_writeback, src)
+    rep.guard('C11.R6', r6_views_are_fresh, src)
